@@ -52,7 +52,7 @@ def reference(Tn, Bn, Mk, Nt, r, V, boot, lam, gam):
   return sg(vs), sg(adv)
 
 
-def one(I, Tn, Bn):
+def one(I, Tn, Bn, lam=None, gam=None):
   # the masks are 0/1 valued: idempotent boolean atoms (m * m = m), re-parameterised as
   # Mk = 1 - truncation, Nt = 1 - termination
   def batoms(tag):
@@ -65,7 +65,9 @@ def one(I, Tn, Bn):
   tr, te = 1 - Mk, 1 - Nt
   r, V = symarr('r', (Tn, Bn)), symarr('V', (Tn, Bn))
   boot = symarr('b', (Bn,))
-  lam, gam = sym('lam'), sym('gam')
+  # lambda / discount: symbolic (a traced value) unless an end point is given as the Python number a config passes
+  lam = sym('lam') if lam is None else lam
+  gam = sym('gam') if gam is None else gam
   out = I.apply(fn(MOD, 'compute_gae'), [tr, te, r, V, boot], {'lambda_': lam, 'discount': gam})
   ref = reference(Tn, Bn, Mk, Nt, r, V, boot, lam, gam)
   return out, ref
@@ -104,5 +106,16 @@ def run(U, rep, tier):
       rep.check(not leak, 'R19.2', '%s T=%d,B=%d carries no gradient' % (name, Tn, Bn),
                 '%s depends differentiably on %s (not under stop_gradient)' % (name, ', '.join(leak[:4])), where=f.where(),
                 construct='every occurrence of rewards / values / bootstrap_value lies under jax.lax.stop_gradient')
+  # end points as host numbers (how a training config passes them): a static special case must agree with the definition
+  ends = [(0.0, None), (1.0, None), (0, None), (None, 0.0), (None, 1.0), (0.0, 1.0), (1.0, 0.0)]
+  for Tn, Bn in ([(1, 1), (3, 2)] if tier == 'quick' else [(1, 1), (2, 1), (3, 2), (5, 2)]):
+    for lam, gam in ends:
+      out, ref = one(I, Tn, Bn, lam, gam)
+      strip = lambda a: Rat.lift(avn.ATOM_ARGS[a][1][0]) if isinstance(a, avn.Atom) and a.kind == 'stop_gradient' else None
+      ok = isinstance(out, (tuple, list)) and len(out) == 2 and all(
+          same(avn.subst_atoms(asarr(o), strip), avn.subst_atoms(asarr(r_), strip)) for o, r_ in zip(out, ref))
+      rep.check(ok, 'R19.1', 'end point lambda=%r discount=%r T=%d,B=%d' % (lam, gam, Tn, Bn),
+                'compute_gae differs from the GAE definition when lambda_ / discount are the host numbers %r / %r' % (lam, gam),
+                where=f.where(), construct='lambda_, discount passed as Python numbers (static), not traced values')
   rep.stat('grid', ['T=%d,B=%d' % g for g in grid])
   rep.stat('interpreter_calls', I.calls)
